@@ -653,3 +653,115 @@ Fixpoint ashape_ok (s : list bool) : bool :=
   | [] => false
   | m :: r => match r with [] => negb m | _ :: _ => m && ashape_ok r end
   end.
+
+(* ====================================================================== *)
+(* 8. readiness: a blocked operation of the polling driver                  *)
+
+(* A socket's send buffer has a capacity: a send is accepted only while there
+   is room.  The polling driver first tries the system call (pre_submit); on
+   "would block" it registers the descriptor with an INTEREST and retries the
+   call (operate) when the poller reports an event for that interest.
+   compio-driver/src/sys/op/socket/poll.rs: decide(fd, Writable, ..) for every
+   send flavour, decide(fd, Readable, ..) for every receive flavour.           *)
+Inductive interest := IReadable | IWritable.
+Definition interest_eqb (a b : interest) : bool :=
+  match a, b with IReadable, IReadable | IWritable, IWritable => true | _, _ => false end.
+
+Definition send_interest : interest := IWritable.
+Definition recv_interest : interest := IReadable.
+
+(* the events the poller reports for a descriptor whose outgoing queue is
+   [q_out] (capacity C) and whose incoming queue is [q_in] *)
+Definition fd_events (C : nat) (q_out q_in : list byte) (in_closed : bool) : list interest :=
+  (if length q_out <? C then [IWritable] else []) ++
+  (if (1 <=? length q_in) || in_closed then [IReadable] else []).
+
+Inductive opst := OpBlocked (i : interest) | OpDone (n : nat).
+
+(* how many bytes the OS takes when it is asked for [want] and offers [room] *)
+Definition os_take (k_os room want : nat) : nat := Nat.max 1 (Nat.min k_os (Nat.min room want)).
+
+(* pre_submit of a send of [data]: tried at once; blocked when there is no room *)
+Definition send_submit (i : interest) (C : nat) (q_out data : list byte) (k_os : nat)
+  : opst * list byte :=
+  let room := C - length q_out in
+  if (room =? 0) && negb (length data =? 0) then (OpBlocked i, q_out)
+  else let n := if length data =? 0 then 0 else os_take k_os room (length data) in
+       (OpDone n, q_out ++ firstn n data).
+
+(* a poller wake-up for a blocked send: the call is retried only if the event
+   set contains the operation's interest *)
+Definition send_retry (i : interest) (C : nat) (q_out q_in : list byte) (in_closed : bool)
+  (data : list byte) (k_os : nat) : opst * list byte :=
+  if existsb (interest_eqb i) (fd_events C q_out q_in in_closed)
+  then send_submit i C q_out data k_os
+  else (OpBlocked i, q_out).
+
+(* the same for a receive with capacity [cap] on the incoming queue *)
+Definition recv_submit (i : interest) (q_in : list byte) (in_closed : bool) (cap k_os : nat)
+  : opst * list byte * list byte :=
+  if (length q_in =? 0) && negb in_closed && negb (cap =? 0) then (OpBlocked i, [], q_in)
+  else let n := if (cap =? 0) || (length q_in =? 0) then 0 else os_take k_os (length q_in) cap in
+       (OpDone n, firstn n q_in, skipn n q_in).
+
+Definition recv_retry (i : interest) (C : nat) (q_out q_in : list byte) (in_closed : bool)
+  (cap k_os : nat) : opst * list byte * list byte :=
+  if existsb (interest_eqb i) (fd_events C q_out q_in in_closed)
+  then recv_submit i q_in in_closed cap k_os
+  else (OpBlocked i, [], q_in).
+
+(* a writer pushing [rem] through a send buffer of capacity C while the peer
+   ONLY reads (never sends): every element of [ks] is one read of the peer;
+   after it the poller may wake the blocked send.  Result: what the peer got,
+   what is still queued, what the writer still holds. *)
+Fixpoint bp_run (i : interest) (C : nat) (q rem : list byte) (ks : list nat)
+  : list byte * list byte * list byte :=
+  match ks with
+  | [] => ([], q, rem)
+  | k :: r =>
+    let n := Nat.min k (length q) in
+    let got := firstn n q in
+    let q1 := skipn n q in
+    let '(q2, rem2) :=
+      match rem with
+      | [] => (q1, rem)
+      | _ => match send_retry i C q1 [] false rem (length rem) with
+             | (OpDone m, q') => (q', skipn m rem)
+             | (OpBlocked _, q') => (q', rem)
+             end
+      end in
+    let '(g, qf, rf) := bp_run i C q2 rem2 r in (got ++ g, qf, rf)
+  end.
+
+(* ---- counts only: the abstraction the bulk-transfer transcripts are
+   replayed on (payloads of several MiB are not materialised) --------------- *)
+Record cstream := mkc { cq : N; cclosed : bool }.
+
+Inductive clabel :=
+| CSend (offered k : N)
+| CShutdown
+| CRecv (cap k : N)
+| CDrop (k : N).
+
+Definition clabel_of (l : label) : clabel :=
+  match l with
+  | LSend data k => CSend (N.of_nat (length data)) (N.of_nat k)
+  | LShutdown => CShutdown
+  | LRecv cap k => CRecv (N.of_nat cap) (N.of_nat k)
+  | LDrop k => CDrop (N.of_nat k)
+  end.
+
+Definition cstep (s : cstream) (l : clabel) : option cstream :=
+  match l with
+  | CSend offered k =>
+      if negb (cclosed s) && (k <=? offered)%N && ((1 <=? k)%N || (offered =? 0)%N)
+      then Some (mkc (cq s + k) false) else None
+  | CShutdown => Some (mkc (cq s) true)
+  | CRecv cap k =>
+      if (k <=? cap)%N && (k <=? cq s)%N &&
+         ((1 <=? k)%N || (cap =? 0)%N || ((cq s =? 0)%N && cclosed s))
+      then Some (mkc (cq s - k) (cclosed s)) else None
+  | CDrop k => if (k <=? cq s)%N then Some (mkc (cq s - k) (cclosed s)) else None
+  end.
+
+Definition cabs (s : stream) : cstream := mkc (N.of_nat (length (sq s))) (sclosed s).
